@@ -107,6 +107,7 @@ func FiatOnAbstract(pkg string, srt sym.Sort) *Set {
 		ex.WriteWords(c.St, out, limbsOf(sym.App(sym.Int, "int_of:"+srt.String(), t)))
 		return nil, true
 	}
+	putSaturatedHelper(s, true)
 	return s
 }
 
@@ -301,6 +302,19 @@ func ReduceSaturated() *Set {
 			return ge, true
 		}
 	}
+	saturatedHelpers(s)
+	s.Intercepts[HelpersPkg+".FiatLimbsAreEqual"] = func(ex *absint.Exec, c *absint.CallCtx) (absint.Val, bool) {
+		a, b := ptrArg(ex, c, 0), ptrArg(ex, c, 1)
+		if a == nil || b == nil || !ex.IsLeaf(c.St, a) || !ex.IsLeaf(c.St, b) {
+			return nil, false
+		}
+		return RingEq(loadAbsPtr(ex, c, a, sym.Fp), loadAbsPtr(ex, c, b, sym.Fp)), true
+	}
+	return s
+}
+
+// saturatedHelpers: the byte <-> saturated-limb helpers (verified by limbproof.CheckHelpers).
+func saturatedHelpers(s *Set) {
 	s.Intercepts[HelpersPkg+".BytesToSaturated"] = func(ex *absint.Exec, c *absint.CallCtx) (absint.Val, bool) {
 		b := readArr32(ex, c, 0)
 		ws := limbsOf(os2ip(b))
@@ -310,6 +324,12 @@ func ReduceSaturated() *Set {
 		}
 		return a, true
 	}
+	putSaturatedHelper(s, false)
+}
+
+// putSaturatedHelper: limbs -> canonical big-endian bytes.  onlyAbstract: decline (the body is then analysed as written)
+// unless the limbs are those of the canonical representative of an abstract ring element.
+func putSaturatedHelper(s *Set, onlyAbstract bool) {
 	s.Intercepts[HelpersPkg+".PutSaturatedToBytes"] = func(ex *absint.Exec, c *absint.CallCtx) (absint.Val, bool) {
 		dst, src := ptrArg(ex, c, 0), ptrArg(ex, c, 1)
 		if dst == nil || src == nil {
@@ -317,6 +337,9 @@ func ReduceSaturated() *Set {
 		}
 		var b *sym.Term
 		if ex.IsLeaf(c.St, src) {
+			if onlyAbstract {
+				return nil, false
+			}
 			t := loadAbsPtr(ex, c, src, sym.Fp)
 			b = ToBytes(t.Sort, t)
 		} else {
@@ -325,6 +348,8 @@ func ReduceSaturated() *Set {
 				b = ToBytes(sym.Fp, v.Args[0])
 			} else if ok && v.Op == "int_of:fn" {
 				b = ToBytes(sym.Fn, v.Args[0])
+			} else if onlyAbstract {
+				return nil, false
 			} else {
 				b = sym.App(sym.Bytes, "be_limbs", ws...)
 				sym.SetBytesLen(b, 32)
@@ -332,12 +357,4 @@ func ReduceSaturated() *Set {
 		}
 		return ex.WriteArray(c.St, dst, b, 32), true
 	}
-	s.Intercepts[HelpersPkg+".FiatLimbsAreEqual"] = func(ex *absint.Exec, c *absint.CallCtx) (absint.Val, bool) {
-		a, b := ptrArg(ex, c, 0), ptrArg(ex, c, 1)
-		if a == nil || b == nil || !ex.IsLeaf(c.St, a) || !ex.IsLeaf(c.St, b) {
-			return nil, false
-		}
-		return RingEq(loadAbsPtr(ex, c, a, sym.Fp), loadAbsPtr(ex, c, b, sym.Fp)), true
-	}
-	return s
 }
